@@ -94,7 +94,7 @@ CHECKS = {
          "DESIGN.md §3 C20"),
  "C11": ("model_checking",
          "exhaustive history set (BFS trees of six scenarios) executed by independent OS processes through ABCI, transcripts compared",
-         "The maximal BFS-tree histories of six scenarios (supply c01, vesting c05, parameters c10 and c13, signature c15, lineage c17: ~7 400 histories quick, depth 3; depth 4 thorough) are each executed by R independent OS processes (R=2 quick, 4 thorough) strictly through InitChain / BeginBlock / DeliverTx (real signed transactions) / EndBlock / Commit; per ABCI response the deterministic fields (code, codespace, data, gas wanted/used, events) and every Commit app hash must be identical. In addition the whole v1.2.0 upgrade handler is executed on 400 pre-upgrade states by processes started with different TZ values (two in UTC, others in zones with daylight saving) and must leave the same state. A seventh scenario gives every collection the distributor walks >= 2 elements. Replica 0 is a plain node; every other replica is restarted after every block (new application object over the same database) and runs CheckTx + Simulate around every delivered transaction, and starts 1.3 s later; histories include proposals whose second message fails.",
+         "The maximal BFS-tree histories of six scenarios (supply c01, vesting c05, parameters c10 and c13, signature c15, lineage c17: ~7 400 histories quick, depth 3; depth 4 thorough) are each executed by R independent OS processes (R=2 quick, 4 thorough) strictly through InitChain / BeginBlock / DeliverTx (real signed transactions) / EndBlock / Commit; per ABCI response the deterministic fields (code, codespace, data, gas wanted/used, events) and every Commit app hash must be identical. In addition the whole v1.2.0 upgrade handler is executed on 400 pre-upgrade states by processes started with different TZ values (two in UTC, others in zones with daylight saving) and must leave the same state. During the exploration every transition is executed ten more times on the same state and must give the same outcome, events and resulting state (map ranges are randomised per execution). A seventh scenario gives every collection the distributor walks >= 2 elements. Replica 0 is a plain node; every other replica is restarted after every block (new application object over the same database) and runs CheckTx + Simulate around every delivered transaction, and starts 1.3 s later; histories include proposals whose second message fails.",
          "Exhaustive over the listed histories, not over Go map iteration orders (stated limit): a state-affecting map iteration is missed by one history with probability <= 2^-(R-1). Log/Info strings excluded (ABCI declares them non-deterministic).",
          "DESIGN.md §3 C11"),
  "C12": ("model_checking",
